@@ -378,7 +378,10 @@ impl<C: CrcCalculator> Encapsulator<C> {
             }
 
             pkt_type = PktType::FirstFragPkt;
-            pdu_len_encapsulated = buffer_len - min_header_len;
+            pdu_len_encapsulated = std::cmp::min(
+                buffer_len - min_header_len,
+                GSE_LEN_MAX - (min_header_len - FIXED_HEADER_LEN),
+            );
             gse_len =
                 (FRAG_ID_LEN + TOTAL_LENGTH_LEN + PROTOCOL_LEN + label_len + pdu_len_encapsulated)
                     as u16;
@@ -677,8 +680,17 @@ impl<C: CrcCalculator> Encapsulator<C> {
                 return Err(EncapError::ErrorPduLength);
             }
 
+            // if the label and the extensions alone exceed what a gse packet can carry
+            if GSE_LEN_MAX < min_header_len - FIXED_HEADER_LEN {
+                (self.last_label, self.re_current_consecutive) = saved_label_state;
+                return Err(EncapError::ErrorPduLength);
+            }
+
             pkt_type = PktType::FirstFragPkt;
-            pdu_len_encapsulated = buffer_len - min_header_len;
+            pdu_len_encapsulated = std::cmp::min(
+                buffer_len - min_header_len,
+                GSE_LEN_MAX - (min_header_len - FIXED_HEADER_LEN),
+            );
             gse_len = (FRAG_ID_LEN
                 + TOTAL_LENGTH_LEN
                 + PROTOCOL_LEN
@@ -888,7 +900,10 @@ pub fn encap_preview(
         }
 
         pkt_type = PktType::FirstFragPkt;
-        pdu_len_encapsulated = buffer_len - min_header_len;
+        pdu_len_encapsulated = std::cmp::min(
+            buffer_len - min_header_len,
+            GSE_LEN_MAX - (min_header_len - FIXED_HEADER_LEN),
+        );
         gse_len = (FRAG_ID_LEN + TOTAL_LENGTH_LEN + PROTOCOL_LEN + label_len + pdu_len_encapsulated)
             as u16;
         pkt_len = gse_len + (FIXED_HEADER_LEN) as u16;
